@@ -3,8 +3,8 @@ import itertools, json, os, random, struct
 from vlib import core, corr
 
 AREA = "C08"
-MODULES = ["TinsModel.Props.C08"]
-AUDIT = "Audit/C08.lean"
+MODULES = ["TinsModel.Props.C08", "TinsModel.Props.Limits.C08"]   # + the constants / limits tied to the source (translator/gen_limits.py)
+AUDIT = ["Audit/C08.lean", "Audit/LimitsC08.lean"]
 LEVEL = "proof"
 HARNESS = "c08_reasm"
 HARNESS_FLAGS = ["-fno-access-control"]          # the harness prints IPv4Reassembler::streams_.size()
@@ -21,6 +21,10 @@ MANIFEST = dict(
          "and class-less protocols; generator coverage bounds what the tie sees.",
     technique="Lean 4 proof (refinement of a reference reassembler over arbitrary histories) + model/impl correspondence",
     design="DESIGN.md §6 C08")
+MANIFEST["note"] += (" Constants and limits of the C++ source that the model restates (translator/gen_limits.py -> Gen/Limits.lean: "
+                     "compiled probe + preprocessed function bodies at named anchors) are tied to the model's numerals by the "
+                     "theorems of lean/TinsModel/Props/Limits/C08.lean (audit: Audit/LimitsC08.lean); tools/LIMITS-INVENTORY.md lists "
+                     "what is tied and what is not.")
 
 A, B, C = 0x0A000001, 0x0A000002, 0xC0A80164
 RAW_PROTOS = [253, 254, 99, 47, 0, 255]
@@ -342,7 +346,12 @@ def build():
 
 
 def run(chk):
+    from translator import gen_limits
+    gen_limits.main([])          # Gen/Limits.lean: constants and limits read from the current source
+    chk.trusted.append("translator/gen_limits.py (constants / limits of the source -> Gen/Limits.lean: compiled probe + "
+                       "preprocessed function bodies at named anchors; tied to the model numerals by Props/Limits/C08.lean)")
     problems = chk.prove(MODULES, AUDIT, want_leanchecker=(chk.tier == "thorough"))
+    problems = gen_limits.name_failures(chk, problems, "C08")   # name the tie theorems that fail
     exe, err = build()
     if exe is None:
         chk.violation("implementation does not build: " + err[-1500:], ["build-error"], nofail=True)
